@@ -127,7 +127,7 @@ def protected_list(spec):
 def cfg_name(cfg) -> str:
     topo = cfg["topo"]
     fm = "+".join(r["fmt"] for r in cfg["regs"])
-    lb = "+".join(("pre" if l["preload"] else "empty") + "/" + ("none" if l["protect"] is None else l["protect"] if isinstance(l["protect"], str) else "custom:" + ",".join(l["protect"])) for l in cfg["libs"])
+    lb = "+".join(("pre" if l["preload"] else "empty") + "/" + ("none" if l["protect"] is None else l["protect"] if isinstance(l["protect"], str) else "custom:" + (",".join(l["protect"]) or "<empty-list>")) for l in cfg["libs"])
     route = "/via-decorator" if cfg.get("route") == "decorator" else ""
     return f"{topo}{route}/{fm}/{lb}/n={','.join(cfg['names'])}/c={cfg['nclasses']}"
 
@@ -143,7 +143,8 @@ def single_configs(thorough: bool):
     for fmt in ("default", "shorthand", "prefix"):
         names = ["a", "a_x", "b", "slot_x"] if fmt == "prefix" else ["a", "b", "slot"]
         for preload in (True, False):
-            for protect in (None, "builtin", ["a", "component"]):
+            # [] = `mark_protected_tags(lib, [])`: explicitly nothing protected (not "use the built-in list")
+            for protect in (None, "builtin", ["a", "component"], []):
                 if protect not in (None, "builtin") and not preload:
                     continue
                 out.append({
